@@ -4,7 +4,9 @@ import (
 	"bytes"
 	"fmt"
 	"runtime"
+	"strings"
 	"sync"
+	"sync/atomic"
 	"time"
 
 	control "github.com/longportapp/openapi-protobufs/gen/go/control"
@@ -387,6 +389,7 @@ func init() {
 		case <-time.After(t.U(60)):
 			n, where := libGoroutines()
 			t.Check("client_threads_exit", false, "Dial has not returned 60 units after the handshake write was released (the peer had closed the first connection before the client registered its close callback); %d library goroutine(s): %s", n, where)
+			t.Check("do_terminates", false, "Dial (dial timeout %d units) has not returned 60 units after the handshake write was released: the peer had closed the first connection before the client registered its close callback; every later call would block behind it", defaultCfg().DialTimeoutU)
 			return
 		}
 		if d.err == nil && d.cl != nil {
@@ -529,4 +532,301 @@ func init() {
 			t.Check("dispatch_spec", fmt.Sprint(got) == fmt.Sprint(want), "30 pushes were received before the connection was lost (no overflow logged) and the re-dials were refused for 14 units: %d were delivered while the client was recovering: %v", len(got), got)
 		}
 	}})
+}
+
+// ---- wave 7 ----
+
+func init() {
+	// C13/C10: a burst of gzip-COMPRESSED pushes behind a slow subscriber: each is delivered with its own content, in order, although later
+	// frames are decompressed while earlier packets are still queued (a delivered body is not the decompressor's scratch memory)
+	register(&scenario{Name: "c13/gzip-burst-slow-subscriber", Props: []string{"C13", "C10", "C17"}, Quick: true, Run: func(t *T) {
+		p := newPeer(t, t.Transport, t.Version)
+		defer p.Shutdown()
+		p.onFrame = func(pc *peerConn, f frameIn) { stdReply(pc, f) }
+		var mu sync.Mutex
+		var got []string
+		cfg := defaultCfg()
+		cfg.ReadQueue = 64
+		cfg.Handlers = map[uint32][]func(*protocol.Packet){50: {func(pk *protocol.Packet) {
+			time.Sleep(t.U(1) / 4)
+			mu.Lock()
+			got = append(got, fmt.Sprintf("%d:%x", len(pk.Body), fnv64(pk.Body)))
+			mu.Unlock()
+		}}, 51: {func(pk *protocol.Packet) {
+			mu.Lock()
+			got = append(got, fmt.Sprintf("51/%d:%x", len(pk.Body), fnv64(pk.Body)))
+			mu.Unlock()
+		}}}
+		cl, err := t.NewClient(p, cfg)
+		if err != nil {
+			t.Check("setup", false, "dial: %v", err)
+			return
+		}
+		defer cl.Close(nil)
+		pc := p.FirstConn()
+		var want []string
+		for i := 0; i < 12; i++ {
+			content := bytes.Repeat([]byte(fmt.Sprintf("payload-%02d;", i)), 40+i)
+			cmd, pre := 50, ""
+			if i%5 == 4 {
+				cmd, pre = 51, "51/"
+			}
+			want = append(want, fmt.Sprintf("%s%d:%x", pre, len(content), fnv64(content)))
+			pc.Send(specFrame{typ: 3, cmd: cmd, gzip: 1, body: stdCompress(content)})
+		}
+		for k := 0; k < 80; k++ {
+			mu.Lock()
+			n := len(got)
+			mu.Unlock()
+			if n >= len(want) {
+				break
+			}
+			time.Sleep(t.U(1) / 2)
+		}
+		mu.Lock()
+		defer mu.Unlock()
+		if t.Warns("drop") == 0 {
+			t.Check("dispatch_spec", fmt.Sprint(got) == fmt.Sprint(want), "twelve gzip-compressed pushes in one burst to subscribers of which one takes a quarter unit per frame: delivered (length:hash) %v, sent %v", got, want)
+		}
+	}})
+
+	// C15 echo with a backlog (TCP): a heartbeat request of the peer waits in the receive queue behind a slow push handler while further
+	// bytes arrive on the socket; the answer the client finally writes echoes the request's id AND its body
+	register(&scenario{Name: "c15/echo-behind-slow-handler", Props: []string{"C15", "C07"}, Quick: true, Transports: []string{"tcp"}, Run: func(t *T) {
+		p := newPeer(t, t.Transport, t.Version)
+		defer p.Shutdown()
+		var mu sync.Mutex
+		echoes := map[uint32][]byte{}
+		p.onFrame = func(pc *peerConn, f frameIn) {
+			if f.Typ == 2 && f.Cmd == 1 {
+				mu.Lock()
+				echoes[f.Rid] = append([]byte{}, f.Body...)
+				mu.Unlock()
+				return
+			}
+			stdReply(pc, f)
+		}
+		cfg := defaultCfg()
+		cfg.ReadQueue = 64
+		cfg.Handlers = map[uint32][]func(*protocol.Packet){50: {func(pk *protocol.Packet) { time.Sleep(t.U(2)) }}}
+		cl, err := t.NewClient(p, cfg)
+		if err != nil {
+			t.Check("setup", false, "dial: %v", err)
+			return
+		}
+		defer cl.Close(nil)
+		pc := p.FirstConn()
+		bodies := map[uint32][]byte{}
+		for i := 0; i < 4; i++ {
+			pc.Send(pushFrame(50, bytes.Repeat([]byte{byte('p' + i)}, 300)))
+			rid := uint32(7000 + i)
+			b := bytes.Repeat([]byte{byte('H' + i)}, 64+i)
+			bodies[rid] = b
+			pc.Send(specFrame{typ: 1, cmd: 1, rid: rid, to: 5, body: b})
+			time.Sleep(t.U(1) / 2)
+			pc.Send(pushFrame(52, bytes.Repeat([]byte{'e'}, 500))) // nobody subscribes: just more bytes through the read buffer
+			time.Sleep(t.U(1) / 2)
+		}
+		for k := 0; k < 60; k++ {
+			mu.Lock()
+			n := len(echoes)
+			mu.Unlock()
+			if n >= len(bodies) {
+				break
+			}
+			time.Sleep(t.U(1) / 2)
+		}
+		mu.Lock()
+		defer mu.Unlock()
+		ok, detail := len(echoes) == len(bodies), ""
+		for rid, b := range bodies {
+			if !bytes.Equal(echoes[rid], b) {
+				ok = false
+				detail += fmt.Sprintf(" [heartbeat %d: sent %d bytes of %q, the answer carries %d bytes starting %q]", rid, len(b), b[:1], len(echoes[rid]), firstBytes(echoes[rid], 4))
+			}
+		}
+		t.Check("echo", ok, "four heartbeat requests of the peer, each queued behind a push whose handler takes two units, with further traffic arriving meanwhile: %d answered;%s", len(echoes), detail)
+	}})
+
+	// C16/C10: a legal compressed push whose content inflates to more than 2^24 bytes (about 17 KiB on the wire; the frame limit is on the
+	// compressed body): it is delivered whole, and after Close nothing of the connection is left running
+	register(&scenario{Name: "c16/huge-inflating-push-then-close", Props: []string{"C16", "C10", "C04"}, Quick: true, Transports: []string{"tcp"}, TimeoutU: 600, Run: func(t *T) {
+		p := newPeer(t, t.Transport, t.Version)
+		defer p.Shutdown()
+		p.onFrame = func(pc *peerConn, f frameIn) { stdReply(pc, f) }
+		var mu sync.Mutex
+		var lens []int
+		cfg := defaultCfg()
+		cfg.Handlers = map[uint32][]func(*protocol.Packet){50: {func(pk *protocol.Packet) {
+			mu.Lock()
+			lens = append(lens, len(pk.Body))
+			mu.Unlock()
+		}}}
+		cl, err := t.NewClient(p, cfg)
+		if err != nil {
+			t.Check("setup", false, "dial: %v", err)
+			return
+		}
+		pc := p.FirstConn()
+		sizes := []int{1 << 20, 1<<24 + 4096, 17 << 20}
+		for _, n := range sizes {
+			pc.Send(specFrame{typ: 3, cmd: 50, gzip: 1, body: stdCompress(make([]byte, n))})
+		}
+		for k := 0; k < 200; k++ {
+			mu.Lock()
+			n := len(lens)
+			mu.Unlock()
+			if n >= len(sizes) {
+				break
+			}
+			time.Sleep(t.U(1) / 2)
+		}
+		closed := make(chan struct{})
+		go func() { cl.Close(nil); close(closed) }()
+		select {
+		case <-closed:
+		case <-time.After(t.U(40)):
+			t.Check("close_prompt", false, "Close did not return within 40 units")
+		}
+		t.Sleep(4)
+		mu.Lock()
+		t.Check("dispatch_spec", fmt.Sprint(lens) == fmt.Sprint(sizes), "compressed pushes whose contents have %v bytes were delivered with %v bytes", sizes, lens)
+		mu.Unlock()
+		n, where := libGoroutines()
+		t.Check("client_threads_exit", n == 0, "%d library goroutine(s) alive after Close (the connection had decoded compressed pushes inflating to 1 MiB, 16 MiB + 4 KiB and 17 MiB): %s", n, where)
+	}})
+
+	// C17 (both versions): concurrent calls that carry request metadata — in version 2 every frame packs a metadata block — against an echo
+	// peer that checks each request's metadata against its body; under the race detector the block a frame is built from belongs to that frame
+	register(&scenario{Name: "c17/v2-concurrent-metadata", Props: []string{"C17", "C05", "C11"}, Quick: true, Run: func(t *T) {
+		p := newPeer(t, t.Transport, t.Version)
+		defer p.Shutdown()
+		var bad int32
+		var firstBad atomic.Value
+		p.onFrame = func(pc *peerConn, f frameIn) {
+			if stdReply(pc, f) {
+				return
+			}
+			if f.Typ == 1 && f.Cmd == 100 {
+				if p.version == 2 {
+					tag := tagOfBody(f.Body)
+					md := &protocol.Metadata{}
+					_ = md.UnmarshalValues(f.Md)
+					want := fmt.Sprintf("caller-%d", tag)
+					if md.Values["x-caller"] != want || md.Values["x-pad"] != strings.Repeat("p", int(tag%50)+130) {
+						if atomic.AddInt32(&bad, 1) == 1 {
+							firstBad.Store(fmt.Sprintf("request tagged %d carries metadata x-caller=%q, x-pad of %d bytes (want %q, %d bytes)", tag, md.Values["x-caller"], len(md.Values["x-pad"]), want, int(tag%50)+130))
+						}
+					}
+				}
+				pc.Send(respFrame(f, 0, f.Body))
+			}
+		}
+		cfg := defaultCfg()
+		cfg.ReadQueue = 1024
+		cl, err := t.NewClient(p, cfg)
+		if err != nil {
+			t.Check("setup", false, "dial: %v", err)
+			return
+		}
+		defer cl.Close(nil)
+		var wg sync.WaitGroup
+		var failed int32
+		for g := 0; g < 8; g++ {
+			wg.Add(1)
+			go func(g int) {
+				defer wg.Done()
+				for i := 0; i < 40; i++ {
+					tag := int32(g*1000 + i)
+					_, err := cl.Do(contextBG(), &clientRequest{Cmd: 100, Body: &control.Heartbeat{Timestamp: 1, HeartbeatId: &tag},
+						Metadata: map[string]string{"x-caller": fmt.Sprintf("caller-%d", tag), "x-pad": strings.Repeat("p", int(tag%50)+130)}}, reqTimeout(t.U(20)))
+					if err != nil {
+						atomic.AddInt32(&failed, 1)
+					}
+				}
+			}(g)
+		}
+		wg.Wait()
+		fb, _ := firstBad.Load().(string)
+		t.Check("do_returns_own_id", atomic.LoadInt32(&bad) == 0 && atomic.LoadInt32(&failed) == 0, "8 goroutines x 40 calls with per-call metadata: %d request frames carried another call's metadata (%s), %d calls failed", atomic.LoadInt32(&bad), fb, atomic.LoadInt32(&failed))
+	}})
+
+	// C19: the heartbeat id is drawn and the heartbeat is written on ONE connection. The keepalive goroutine is parked right after it has
+	// drawn the id (yield point keepalive:ping-id); the connection is dropped and the client given time; then the goroutine goes on. Every
+	// connection's ids, as the peer sees them, still are 1, 2, 3, … of that connection's own counter
+	register(&scenario{Name: "c19/ping-id-then-loss", Props: []string{"C19", "C15"}, Quick: true, Run: func(t *T) {
+		p := newPeer(t, t.Transport, t.Version)
+		defer p.Shutdown()
+		p.onFrame = func(pc *peerConn, f frameIn) {
+			if f.WsKind == "ping" {
+				pc.WsControl(10, f.Body)
+				return
+			}
+			if f.WsKind != "" && f.WsKind != "binary" {
+				return
+			}
+			if f.Typ == 1 {
+				pc.Send(respFrame(f, 0, f.Body))
+			}
+		}
+		cfg := defaultCfg()
+		cfg.KeepaliveU, cfg.KeepaliveTimeoutU = 3, 30
+		cl, err := t.NewClient(p, cfg)
+		if err != nil {
+			t.Check("setup", false, "dial: %v", err)
+			return
+		}
+		defer cl.Close(nil)
+		for i := 0; i < 5; i++ {
+			doTagged(t, cl, 100, int32(i), 6)
+		}
+		verifhook.Hold("keepalive:ping-id")
+		if !verifhook.WaitParked("keepalive:ping-id", 1, t.U(40)) {
+			verifhook.Release("keepalive:ping-id")
+			t.Check("setup", false, "no heartbeat within 40 units")
+			return
+		}
+		p.FirstConn().Drop()
+		t.Sleep(6) // a recovery that does not need the lock the parked goroutine may hold would complete now
+		verifhook.Release("keepalive:ping-id")
+		for k := 0; k < 200 && p.Dials() < 2; k++ {
+			time.Sleep(t.U(1) / 4)
+		}
+		t.Sleep(2)
+		for i := 0; i < 4; i++ {
+			doTagged(t, cl, 100, int32(100+i), 6)
+		}
+		t.Sleep(4)
+		conns := p.Conns()
+		if len(conns) < 2 {
+			t.Check("setup", false, "the client did not recover")
+			return
+		}
+		for ci, pc := range conns {
+			var ids []uint32
+			for _, f := range pc.Frames() {
+				if f.Typ == 1 && (f.WsKind == "" || f.WsKind == "binary") {
+					ids = append(ids, f.Rid)
+				} else if f.WsKind == "ping" {
+					if id, ok := heartbeatIDOf(f.Body); ok {
+						ids = append(ids, id)
+					}
+				}
+			}
+			ok := true
+			for i, id := range ids {
+				if int(id) != i+1 {
+					ok = false
+				}
+			}
+			t.Check("ids_from_one", ok, "connection %d: the ids of requests and heartbeats as the peer saw them, in order, are %v (want 1, 2, 3, …: an id is written to the connection whose counter it was drawn from)", ci+1, ids)
+		}
+	}})
+}
+
+func firstBytes(b []byte, n int) []byte {
+	if len(b) < n {
+		return b
+	}
+	return b[:n]
 }
